@@ -29,7 +29,7 @@ from .C14 import stmts_sx
 LEVEL = 'other'
 UNITS = ['src/regression/leastsquares/LeastSquares.cpp']
 ENGINES = 'E-STATE + E-SIB + E-ALG over romea-facts'
-TECHNIQUE = 'setDataSize stepped on (rows held, requested) pairs, compile-time maximum sizes of the solver matrices, same-value shortcuts of configuring methods (sweep H14), raw factors of the pivoted LDLT, offset of the preconditioner reaching the estimate on every path, one-parameter instance, recorded denominators of the weighted path (nothing divided by a weight alone), diagonal views and machine constants in the instance model, a 131-row instance for rows left out, sub-rounding differences re-evaluated with the design scaled down, SVD path read up to the decomposition on the instance, block-coverage instance (192 rows), NaN results, relative threshold of svd.solve, tolerance shortcuts, sweep of every function read (and its in-repo callees) for frozen function-local statics, single precision inside double computations, lossy copy constructors, presence- or argument-keyed member caches, reference members bound to constructor arguments, loop accumulators that are members, members derived in the constructor and not refreshed by setters, results returned by reference to a member buffer, members filled from an argument under a condition that ignores it, hidden non-virtual base members, self-bound reference members, reductions that accumulate in float; symbolic small-instance model of the solver (concrete sizes, symbolic entries, stale rows and stale matrices as separate symbols, bounded loop unrolling) compared with the closed forms as rational-function identities; effect analysis (weight buffer must not reach the unweighted entries), final stored values of the preconditioner setters, word algebra over J / J^T / J^-1 for every store of the inverse normal matrix; slicing discipline by ancestor-chain analysis of every buffer use on the instantiated AST; must-pass-through and structural agreement of the two solver paths; bound on the singular-value truncation constant'
+TECHNIQUE = 'results assigned on branches and the result of a sibling estimator preconditioned again, weights overwritten through a writable view, a lazily formed stored inverse judged through the covariance query on the state the solve left, stored factorisation objects in the solver model, setDataSize stepped on (rows held, requested) pairs, compile-time maximum sizes of the solver matrices, same-value shortcuts of configuring methods (sweep H14), raw factors of the pivoted LDLT, offset of the preconditioner reaching the estimate on every path, one-parameter instance, recorded denominators of the weighted path (nothing divided by a weight alone), diagonal views and machine constants in the instance model, a 131-row instance for rows left out, sub-rounding differences re-evaluated with the design scaled down, SVD path read up to the decomposition on the instance, block-coverage instance (192 rows), NaN results, relative threshold of svd.solve, tolerance shortcuts, sweep of every function read (and its in-repo callees) for frozen function-local statics, single precision inside double computations, lossy copy constructors, presence- or argument-keyed member caches, reference members bound to constructor arguments, loop accumulators that are members, members derived in the constructor and not refreshed by setters, results returned by reference to a member buffer, members filled from an argument under a condition that ignores it, hidden non-virtual base members, self-bound reference members, reductions that accumulate in float; symbolic small-instance model of the solver (concrete sizes, symbolic entries, stale rows and stale matrices as separate symbols, bounded loop unrolling) compared with the closed forms as rational-function identities; effect analysis (weight buffer must not reach the unweighted entries), final stored values of the preconditioner setters, word algebra over J / J^T / J^-1 for every store of the inverse normal matrix; slicing discipline by ancestor-chain analysis of every buffer use on the instantiated AST; must-pass-through and structural agreement of the two solver paths; bound on the singular-value truncation constant'
 EXPLANATION = ('Every occurrence of J_, Y_, W_ in the solver functions is classified by its enclosing Eigen view (must restrict to dataSize_ rows); the normal-equation loops, the two solver '
                'paths, the weighting and the preconditioner are matched structurally on normalised expression trees.')
 ASSUMPTIONS = ['estimateSize_ <= dataSize_ (quantifier: data size from the estimate size upwards)', 'Eigen head/topRows/block/col/dot/ldlt/JacobiSVD semantics; buffers never shrink (checked: only resize in setDataSize under growth)',
